@@ -276,6 +276,30 @@ class Gen:
             return ["Rec", ["Or", ["Memo", mid, ["Then", ["Var", 0], ["Then", ["Just", [op]], atom]]], atom]]
         return ["Rec", ["Memo", mid, ["Or", ["Then", ["Var", 0], ["Then", ["Just", [op]], atom]], atom]]]
 
+    def memo_clones(self):
+        """one memoized parser, cloned into several places (clones share the cache key), failing more than once at the same
+        position, with something between the visits that shelters, rewrites or discards the pending error"""
+        mid = 950 + self.r.randint(0, 40)
+        body = self.r.choice([["Just", self.toks(1, 2)], ["OneOf", self.toks(1, 2)], ["Then", ["Just", self.toks(1, 1)], ["Just", self.toks(1, 1)]],
+                              self.g(1, True)])
+        M = ["Memo", mid, body]
+        pre = ["Then", ["OrNot", self.leaf(True)], M]
+        first = self.r.choice([
+            lambda: ["Labelled", self.k(), self.r.randint(0, 1), pre],
+            lambda: ["Then", ["Not", pre], "Any"],
+            lambda: ["TryMap", "PFalse", "FId", self.k(), pre],
+            lambda: ["MapErr", self.k(), pre],
+            lambda: ["Rewind", pre],
+            lambda: pre,
+            lambda: ["Then", M, ["Just", self.toks(1, 1)]],
+        ])()
+        second = self.r.choice([["Then", M, self.g(1)], M, ["Then", ["OrNot", self.leaf(True)], M], ["Labelled", self.k(), 1, M]])
+        c = self.r.random()
+        if c < 0.5: g = ["Or", first, second]
+        elif c < 0.8: g = ["Choice", [first, second, ["Then", M, M]]]
+        else: g = ["Then", ["OrNot", first], second]
+        return g
+
     def memoize(self, g, prob=0.3, counter=None):
         """wrap random sub-grammars (G positions only) in Memo with unique ids"""
         counter = counter if counter is not None else [0]
